@@ -11,6 +11,20 @@ def tupseq(lst):
     return tuple((t[0], t[1] if t[1] != '' else None, None) for t in lst)
 
 
+def _canon_product(e):
+    """`(a*b)` and `(b*a)` are the same offset expression: the factors of a top-level product are sorted"""
+    t = e.strip()
+    while t.startswith('(') and t.endswith(')') and t.count('(') == t.count(')') and '(' not in t[1:-1].split(')')[0][:0]:
+        inner = t[1:-1]
+        if inner.count('(') != inner.count(')'):
+            break
+        t = inner
+        break
+    if '*' in t and '(' not in t:
+        return '(' + '*'.join(sorted(x.strip() for x in t.split('*'))) + ')'
+    return e
+
+
 def run(ctx, rep):
     P = ctx.prog
     rep.explanation = ('Bit-stability is decided for what has a finite definition: GF tables and generator matrices (exhaustive, shared with C02), CRC tables, varint/LE32 codecs; '
@@ -55,7 +69,7 @@ def run(ctx, rep):
         f = P.fn(name)
         rep.analysed(f)
         st = [i for i in f.all_insts() if i.op == 'store' and f.expr(i.ops[1]) == '&offset']
-        offs[name] = sorted(f.expr(i.ops[0]) for i in st)
+        offs[name] = sorted(_canon_product(f.expr(i.ops[0])) for i in st)
         find = list(f.calls('parity_split_find'))
         rep.check(len(st) == 1 and '*' in offs[name][0] and 'pos' in offs[name][0] and 'block_size' in offs[name][0] and len(find) == 1 and f.expr(find[0].ops[1]) == '&offset' and f.dominates(st[0], find[0]),
                   'R-C16-3', '%s: offset = pos*block_size resolved through parity_split_find' % name, f.file, 'offset stores %s' % offs[name], function=name, construct='offset')
